@@ -26,6 +26,10 @@ CLAIMED = {
                 ref='DESIGN.md section 6 C05'),
     'C06': dict(text='Every integer node of eval_i64 is executed symbolically on arbitrary i64 operands from the MIR built with and without overflow checks; z3 (Int theory) shows Ok(v) implies v is the exact result and overflow / zero divisor / bad shift count give Err, never a panic or a wrapped value. Exponent case split 0..64 (quick 0..12), n! for n <= 25.',
                 ref='DESIGN.md section 6 C06'),
+    'C07': dict(text='The arithmetic arms of eval_decimal executed from MIR over abstract Decimal operands: Ok(v) iff the checked rust_decimal operation of the same meaning succeeds, with v that operation applied to the operands in order, Err (never a panic) otherwise, also through a parent node; the decimal tokenizer hands literals of 1..28 digits to from_str with exactly their value and scale. The exactness of rust_decimal itself is the trusted contract of the dependency.',
+                ref='DESIGN.md section 6 C07'),
+    'C08': dict(text='Every node of eval_complex from MIR on arbitrary pairs of doubles: + - and unary minus are the component formulas bit for bit, * the textbook product, / the quotient through the squared norm, each function the num_complex method of the same meaning on its operands in order (methods uninterpreted); the tokenizer reads `i` and DIGITS i as (0, v) and keeps `pi`; eval_complex("i*i") is exactly (-1, 0). Numeric accuracy of the transcendental methods is outside.',
+                ref='DESIGN.md section 6 C08'),
     'C09': dict(text='Every eval_number node on every Integer/Float operand-variant combination with arbitrary payloads: z3 (bit-vectors + FP, Int for exact powers) decides exact Integer results, the float fallback and correct rounding. Assumes the contract of Number::from, which C18 establishes.',
                 ref='DESIGN.md section 6 C09'),
     'C10': dict(text='(T) the five real tokenizers executed from MIR on every README name, alias and word constant followed by arbitrary characters: the function token is produced exactly when the name is this evaluator\'s and is directly followed by `(`, the longest name wins, foreign names give no token; (E) every function node of eval_f64 / eval_number (and the exact ones of eval_i64) applies the library function of that name to its arguments in order (libm uninterpreted; rounding, abs, sqrt, sgn, n! exact).',
@@ -34,6 +38,8 @@ CLAIMED = {
                 ref='DESIGN.md section 6 C19'),
     'C11': dict(text='The aggregate arms of ast::eval (eval_i64, eval_f64, eval_number) executed from MIR on argument vectors of 1..3 (thorough 4) arbitrary values and with a failing argument in each position; z3 compares with the order-independent definition. gcd/lcm: operands bounded (see evidence), compared with an unrolled reference Euclid.',
                 ref='DESIGN.md section 6 C11'),
+    'C17': dict(text='For the feature subsets (quick: singles, pairs with eval_i64, full set; thorough: all 31) the MIR dump succeeds, exactly the selected eval_* functions are compiled and link, every MIR body of each selected evaluator equals its default-build body (name-independent fingerprint), and the parser executed from that subset\'s MIR (with its cfg-dependent OperatorCategory order) groups X op Y op Z for every operator pair as the reference grammar.',
+                ref='DESIGN.md section 6 C17'),
     'C18': dict(text='Both From impls of Number executed from MIR on one fully symbolic argument: z3 decides the property for all 2^64 doubles and all i64 (no bound on the argument).',
                 ref='DESIGN.md section 6 C18'),
 }
